@@ -61,7 +61,7 @@ Scalars == {"int", "int0", "negint", "float_i", "float_f", "true", "false", "str
             "tuple2", "tuple3", "bracketed", "dict",
             "datetime_tz", "time_tz", "inf", "bigint", "s_int_ws", "s_float_exp", "tuple2e", "tuple3e"}
 Empties == {"none", "empty", "elist", "edict"}
-Lists == {"list_int", "list_str", "list_mixed", "list_s_int", "list_tuple2"}
+Lists == {"list_int", "list_str", "list_mixed", "list_s_int", "list_tuple2", "list_tuple2p", "list_tuple23"}     \* ..2p: a component with brackets in it; ..23: a 2- and a 3-tuple
 \* another Property handed to extend ("one can also pass another Property ... units must match"): two int values,
 \* two string values, two int values with a unit the destination does not have
 PropInputs == {"prop_int", "prop_str", "prop_unit"}
@@ -75,7 +75,7 @@ AccYes(f) == CASE f = "str"      -> {"str", "text", "list_str", "prop_str"}
                [] f = "datetime" -> {"datetime", "s_datetime", "datetime_tz"}
                [] f = "tuple"    -> {}
                [] OTHER -> {}
-AccNo(f) == IF f \in {"str", "none"} THEN {} ELSE {"str", "text", "list_str", "list_mixed", "prop_str"}
+AccNo(f) == IF f \in {"str", "none"} THEN {} ELSE {"str", "text", "list_str", "list_mixed", "prop_str"} \cup (IF f = "tuple" THEN {"list_tuple23"} ELSE {})
 
 ListLen(c) == IF c \in Lists \cup PropInputs \cup {"bracketed"} THEN 2 ELSE 1
 Infer(c) == CASE c \in {"int", "int0", "negint", "list_int", "list_mixed", "bigint", "prop_int"} -> "int"
@@ -86,6 +86,11 @@ Infer(c) == CASE c \in {"int", "int0", "negint", "list_int", "list_mixed", "bigi
               [] c \in {"time", "time_us", "time_tz"} -> "time"
               [] c \in {"datetime", "datetime_us", "datetime_tz"} -> "datetime"
               [] OTHER -> "string"
+\* "input that cannot be converted is refused": an accepted list of k values adds k values - none is dropped silently
+\* (judged for lists given to a Property that already holds values; what an empty Property does with a list is the
+\* values setter's inference and is compared with the reference only)
+NothingDropped(o) == (o.op.name \in {"append", "extend", "insert"} /\ o.out = "ok" /\ o.op.in \in Lists \cup PropInputs /\ Len(o.pre.vals) > 0)
+                        => Len(o.post.vals) = Len(o.pre.vals) + ListLen(o.op.in)
 Outcomes(d, c) == IF c \in AccYes(Fam(d)) THEN {"ok"} ELSE IF c \in AccNo(Fam(d)) THEN {"raised"} ELSE {"ok", "raised"}
 Abs(d, n) == [d |-> d, n |-> n]
 R(out, s) == [out |-> out, s |-> s]
